@@ -20,7 +20,7 @@ RULE = ('Each case = generated program into which 1-3 duplicate build_file/subbu
         'a caller whose record contains a setup-failed (rejected) call is never served from the cache. Non-trivial = a build '
         'containing a rejected duplicate while >=1 call of that build was served from the cache; distinct = distinct scenario JSON.')
 ASSUMPTIONS = ['duplicates are identified by the model with the independent canonical JSON form of (name, args, kwargs) / the absolute path']
-CFG = gen.cfg_with(probe_w=1, max_root=5, max_funcs=5, catch_p=0.9, root_catch_p=0.95, nonjson_p=0.0)
+CFG = gen.cfg_with(probe_w=1, max_root=5, max_funcs=5, catch_p=0.9, root_catch_p=0.95, nonjson_p=0.0, kwargs_p=0.2)
 ADOPT = {'C01.outcome': 'C08.dup_outcome', 'C01.tree': 'C08.dup_outcome', 'C04.answer': 'C08.dup_outcome',
          'C01.stale_decision': 'C08.dup_outcome', 'C01.first_build': 'C08.dup_outcome'}
 
